@@ -64,6 +64,19 @@ def _const(value):
     return default
 
 
+COUNTER = [0]  # reset by the check at the start of a case; NOT reset by a restore (that is the point)
+
+
+def _counter(start):
+    """A non-constant callable default (a ticket number): every call gives the next value (reset per case)."""
+
+    def default():
+        COUNTER[0] += 1
+        return start + COUNTER[0]
+
+    return default
+
+
 # -- building the real thing -------------------------------------------------------------------
 def ns(ports=None, required=True, dynamic=False, valid_type=None, validator=None, populate_defaults=True):
     return {
@@ -119,7 +132,7 @@ def _declare(spec, which, prefix, tree):
                 kwargs['help'] = sub['help']
             if which == 'input' and sub.get('default') is not None:
                 mode, value = sub['default']
-                kwargs['default'] = _const(value) if mode == 'callable' else copy.deepcopy(value)
+                kwargs['default'] = _counter(value) if mode == 'counter' else (_const(value) if mode == 'callable' else copy.deepcopy(value))
             getattr(spec, which)(path, **kwargs)
 
 
